@@ -4,6 +4,8 @@ import RreModel.C12.Spec
 Driver for C12 (see harness/src/bin/c12.rs for the line formats).
   drv_c12 model   : case        ↦ observation predicted by the model
   drv_c12 oracle  : case | obs  ↦ `ok <tags>` / `fail <clause>` (the Spec predicates on the observations)
+Case kinds: TW, WM (T: `wmStepOk`; S/N: `wmfStepOk`), WS T (`wsOk`), WS S/N (`wssOk`, observation `hang` = the constructor did
+not return), AN none, S, T (`anStepOk`), AN E (session, `ansStepOk`).
 `average` divides in IEEE double precision exactly as the Rust code does (`sum as f64 / n as f64`);
 floats cross the wire as bit patterns only.
 -/
@@ -16,7 +18,7 @@ def divBits (s : Int) (n : Nat) : Nat := (Float.ofInt s / Float.ofNat n).toBits.
 def items (s : String) : List String := if s = "-" then [] else s.splitOn ","
 
 def parseVal (s : String) : Option (Option Int) :=
-  if s = "s" ∨ s = "m" then some none
+  if s = "s" ∨ s = "m" ∨ s.startsWith "t" then some none
   else if s.startsWith "n" ∨ s.startsWith "i" then (String.ofList (s.toList.drop 1)).toInt?.map some
   else none
 
@@ -36,6 +38,20 @@ def parseEv (id : Nat) (tok : String) : Option (Ev × Bool) :=
   | _ => none
 
 def enum {α} (l : List α) : List (Nat × α) := (List.range l.length).zip l
+
+/-- the finer view of the field for the `AG` cases -/
+def parseFVal (s : String) : Option FVal :=
+  let rest := String.ofList (s.toList.drop 1)
+  if s = "s" then some (.str 7) else if s = "m" then some .missing
+  else if s.startsWith "n" then rest.toInt?.map .num
+  else if s.startsWith "i" then rest.toInt?.map .int
+  else if s.startsWith "t" then rest.toInt?.map .str
+  else none
+
+def parseAEv (id : Nat) (tok : String) : Option AEv :=
+  match tok.splitOn ":" with
+  | [_, v] => (parseFVal v).map fun fv => { id := id, v := fv }
+  | _ => none
 
 def parseEvs (s : String) : Option (List Ev) :=
   (enum (items s)).mapM fun (i, t) => (parseEv i t).map (·.1)
@@ -62,6 +78,9 @@ inductive Case where
   | wm (t : WType) (d cap maxW : Nat) (es : List Ev)
   | ws (d cap : Nat) (es : List Ev)
   | an (w : AWin) (cap : Nat) (ops : List ANOp)
+  | wss (t : WType) (d cap : Nat) (es : List Ev)          -- WindowedStream::new, sliding / session configuration
+  | ans (timeout cap : Nat) (ops : List ANOp)             -- StreamAlphaNode with a session window
+  | ag (es : List AEv)                                    -- First/Last/CountDistinct/CountBy/Percentile/StdDev of one window
 
 def parseCase (line : String) : Option Case :=
   match tokens line with
@@ -73,6 +92,14 @@ def parseCase (line : String) : Option Case :=
     pure (.wm (← parseWType t) (← d.toNat?) (← c.toNat?) (← m.toNat?) (← parseEvs es))
   | ["WS", "T", d, c, es] => do
     pure (.ws (← d.toNat?) (← c.toNat?) (← parseEvs es))
+  | ["WS", t, d, c, es] => do
+    let t ← parseWType t
+    pure (.wss t (← d.toNat?) (← c.toNat?) (← parseEvs es))
+  | ["AG", es] => do
+    pure (.ag (← (enum (items es)).mapM fun (i, t) => parseAEv i t))
+  | ["AN", "E", d, c, ops] => do
+    let ops ← (enum (items ops)).mapM fun (i, x) => parseANOp i x
+    pure (.ans (← d.toNat?) (← c.toNat?) ops)
   | ["AN", w, d, c, ops] => do
     let d ← d.toNat?
     let w ← (if w = "-" then some AWin.none else if w = "S" then some (AWin.sliding d)
@@ -99,6 +126,10 @@ def showWindows (ws : List WObs) : String := if ws.isEmpty then "_" else "+".int
 def joinSteps (ss : List String) : String := if ss.isEmpty then "-" else ";".intercalate ss
 def sortedNats (l : List Nat) : List Nat := l.mergeSort (fun a b => decide (a ≤ b))
 
+def showAgg2 (a : Agg2) : String :=
+  let cb := if a.countBy.isEmpty then "_" else ",".intercalate (a.countBy.map fun p => s!"{p.1}={p.2}")
+  s!"{showON a.first}/{showON a.last}/{a.distinct}/{cb}/{",".intercalate (a.pcts.map showOI)}/{if a.stdDefined then "+" else "-"}"
+
 def modelLine (line : String) : String :=
   match parseCase line with
   | some (.tw t d s c ops) => joinSteps ((twTrace divBits (TW.new t d s c) ops).map showTWObs)
@@ -114,6 +145,13 @@ def modelLine (line : String) : String :=
     match anTrace { window := w, cap := c, events := [] } ops with
     | some tr => joinSteps (tr.map fun o => s!"{b01 o.ret}/{showIds o.events}")
     | none => "panic"
+  | some (.wss t d c es) =>
+    let ws := wsSliding t d c es
+    s!"{showWindows (ws.map (TW.wobs divBits))};{showNats (ws.map (·.events.length))}"
+  | some (.ans timeout c ops) =>
+    joinSteps ((ansTrace { timeout := timeout, cap := c, events := [], last := none } ops).map
+      fun o => s!"{b01 o.ret}/{showIds o.events}")
+  | some (.ag es) => showAgg2 (aggregate2 es)
   | none => "bad-case"
 
 -- ---------------------------------------------------------------- parsing observations (oracle mode)
@@ -163,6 +201,22 @@ def parseANObs (tbl : List Ev) (s : String) : Option ANObs :=
   | [r, ids] => do pure { ret := ← parseBool r, events := ← resolve tbl ids }
   | _ => none
 
+def parseCountBy (s : String) : Option (List (Int × Nat)) :=
+  if s = "_" then some [] else
+  (s.splitOn ",").mapM fun kv =>
+    match kv.splitOn "=" with
+    | [k, c] => do pure (← k.toInt?, ← c.toNat?)
+    | _ => none
+
+def parseAgg2 (s : String) : Option Agg2 :=
+  match s.splitOn "/" with
+  | [f, l, d, cb, ps, sd] => do
+    let ps ← (ps.splitOn ",").mapM optInt?
+    let sd ← (if sd = "+" then some true else if sd = "-" then some false else none)
+    pure { first := ← optNat? f, last := ← optNat? l, distinct := ← d.toNat?, countBy := ← parseCountBy cb,
+           pcts := ps, stdDefined := sd }
+  | _ => none
+
 -- ---------------------------------------------------------------- oracle
 def isLate (ts : List Nat) : Bool :=
   (ts.foldl (fun (acc : Nat × Bool) t => (max acc.1 t, acc.2 || decide (t < acc.1))) (0, false)).2
@@ -204,6 +258,32 @@ def anFirstBad (w : AWin) (cap : Nat) : Nat → List Ev → List ANOp → List A
       some (i, why)
   | i, _, _, _ => some (i, "length")
 
+def wmfFirstBad (d cap maxW : Nat) : Nat → List WObs → List Ev → List (List WObs) → Option Nat
+  | _, _, [], [] => none
+  | i, o, e :: es, o' :: os =>
+    if wmfStepOk divBits d cap maxW o e o' then wmfFirstBad d cap maxW (i + 1) o' es os else some i
+  | i, _, _, _ => some i
+
+def ansFirstBad (timeout cap : Nat) : Nat → Option Nat → List Ev → List ANOp → List ANObs → Option (Nat × String)
+  | _, _, _, [], [] => none
+  | i, last, o, op :: ops, o' :: os =>
+    if ansStepOk timeout cap last o op o' then ansFirstBad timeout cap (i + 1) (sessLast timeout last op) o'.events ops os
+    else some (i, if o'.ret != op.pass then "session-accept" else "session-retained-set")
+  | i, _, _, _, _ => some (i, "length")
+
+/-- tags for the sliding/session manager: did some window end up *without* an event of its span that went to an
+earlier window (first-fit), did an event within `d` of the previous arrival open a new window all the same -/
+def spanIncomplete (es : List Ev) (o : List WObs) : Bool :=
+  o.any fun w => es.any fun x => decide (w.start ≤ x.ts) && decide (x.ts < w.stop) && !(w.events.contains x)
+                                  && o.any (fun w2 => w2.events.contains x)
+
+/-- session node: a late event (older than the timeout at the clock) wiped a session that held other events -/
+def lateWipe (timeout : Nat) : List Ev → List ANOp → List ANObs → Bool
+  | _, [], _ => false
+  | _, _, [] => false
+  | o, op :: ops, o' :: os =>
+    (op.pass && decide (op.now - op.e.ts > timeout) && !o.isEmpty && o'.events.isEmpty) || lateWipe timeout o'.events ops os
+
 def oracleCase (c : Case) (obs : String) : String :=
   match c with
   | .tw t d s cap ops =>
@@ -240,10 +320,16 @@ def oracleCase (c : Case) (obs : String) : String :=
                ++ (if os.any (fun o => o.length == maxW) then ["at-window-limit"] else [])
                ++ (if os.any (fun o => o.any fun w => w.events.length == cap) then ["at-cap"] else []))
         else
-          -- sliding/session managers: only the generic clauses (span containment, aggregates); the rest is the diff
-          if os.length == es.length && os.all (fun o => o.all fun w =>
-              w.events.all (fun x => decide (w.start ≤ x.ts) && decide (x.ts < w.stop)) && aggOk divBits w.events w.agg)
-          then joinSp ["ok", "WM-non-tumbling", s!"len{es.length}"] else "fail wm-non-tumbling-span"
+          match wmfFirstBad d cap maxW 0 [] es os with
+          | some i => s!"fail wm-fixed-step@{i}"
+          | none =>
+            let last := os.getLast?.getD []
+            tagsOf (if t = .sliding then "WM-sliding" else "WM-session") (es.map (·.ts))
+              ((if os.any (fun o => o.length ≥ 2) then ["multi-window"] else [])
+               ++ (if os.any (fun o => o.length == maxW) then ["at-window-limit"] else [])
+               ++ (if os.any (fun o => o.any fun w => w.events.length == cap) then ["at-cap"] else [])
+               ++ (if os.any (fun o => o.any fun w => w.events.length ≥ 2) then ["shared-window"] else [])
+               ++ (if spanIncomplete es last then ["span-incomplete"] else []))
   | .ws d cap es =>
     if obs = "panic" then
       if d = 0 ∧ !es.isEmpty then "ok WS panic-zero-duration" else "fail ws-unexpected-panic"
@@ -260,6 +346,54 @@ def oracleCase (c : Case) (obs : String) : String :=
              ++ (if o.any (fun w => w.events.length == cap) then ["at-cap"] else []))
         | _, _ => "fail ws-unparsable-observation"
       | _ => "fail ws-unparsable-observation"
+  | .wss t d cap es =>
+    if obs = "hang" then "fail ws-sliding-hang"
+    else
+      match obs.splitOn ";" with
+      | [w, cnt] =>
+        match parseWindows es w, parseNats? cnt with
+        | some o, some counts =>
+          if !(wssOk divBits d cap es o) then "fail ws-sliding-grid"
+          else if counts != o.map (·.events.length) then "fail ws-sliding-counts"
+          else tagsOf (if t = .sliding then "WS-sliding" else "WS-session") (es.map (·.ts))
+            ((if o.length ≥ 2 then ["multi-window"] else [])
+             ++ (if o.any (fun w => w.events.length == cap) then ["at-cap"] else [])
+             ++ (if d ≤ 1 then ["tiny-duration"] else [])
+             ++ (if es.any (fun x => (o.filter fun w => w.events.contains x).length ≥ 2) then ["overlap"] else []))
+        | _, _ => "fail ws-unparsable-observation"
+      | _ => "fail ws-unparsable-observation"
+  | .ag es =>
+    match parseAgg2 obs with
+    | none => "fail ag-unparsable-observation"
+    | some a =>
+      if agg2Ok es a then
+        joinSp (["ok", "AG", s!"len{es.length}"]
+          ++ (if a.distinct < ((es.map (·.v)).filter (· ≠ .missing)).length then ["duplicates"] else [])
+          ++ (if a.countBy.length < a.distinct then ["merged-keys"] else [])
+          ++ (if es.length ≥ 2 then ["nontrivial"] else []))
+      else
+        let why :=
+          if a.first != es.head?.map (·.id) || a.last != es.getLast?.map (·.id) then "first-last"
+          else if a.distinct != distinctCount ((es.map (·.v)).filter (· ≠ .missing)) then "count-distinct"
+          else if !(countByOk (es.filterMap (·.v.key)) a.countBy) then "count-by"
+          else if a.stdDefined != decide (2 ≤ (avals es).length) then "stddev-defined"
+          else "percentile"
+        s!"fail ag-{why}"
+  | .ans timeout cap ops =>
+    let tbl := ops.map (·.e)
+    match (steps obs).mapM (parseANObs tbl) with
+    | none => "fail an-unparsable-observation"
+    | some os =>
+      match ansFirstBad timeout cap 0 none [] ops os with
+      | some (i, why) => s!"fail an-{why}@{i}"
+      | none =>
+        let accepted := (os.filter (·.ret)).length
+        tagsOf "AN" (tbl.map (·.ts))
+          (["session"] ++ (if accepted < ops.length then ["rejected-some"] else [])
+           ++ (if (os.getLast?.map (·.events.length)).getD 0 < accepted then ["evicted-some"] else [])
+           ++ (if os.any (fun o => o.events.length == cap) then ["at-cap"] else [])
+           ++ (if os.any (fun o => o.events.length ≥ 2) then ["shared-session"] else [])
+           ++ (if lateWipe timeout [] ops os then ["late-wipe"] else []))
   | .an w cap ops =>
     let willPanic := (match w with | .tumbling 0 => true | _ => false) && ops.any (·.pass)
     if obs = "panic" then (if willPanic then "ok AN panic-zero-duration" else "fail an-unexpected-panic")
